@@ -24,7 +24,6 @@ static void yarlsim_gil_hook(int kind) {
 }
 static PyThreadState *yarlsim_SaveThread(void) { yarlsim_gil_hook(0); return PyEval_SaveThread(); }
 static void yarlsim_RestoreThread(PyThreadState *ts) { PyEval_RestoreThread(ts); yarlsim_gil_hook(1); }
-static PyGILState_STATE yarlsim_GILEnsure(void) { PyGILState_STATE s = PyGILState_Ensure(); return s; }
 #define PyEval_SaveThread yarlsim_SaveThread
 #define PyEval_RestoreThread yarlsim_RestoreThread
 #endif
